@@ -63,7 +63,7 @@ ANNOT = {"int": "int", "nat": "int", "bool": "bool", "opt_bool": "bool | None", 
 # the claim while the quoted sentence is still in their docstring
 DOC_EXCLUSIONS = {
     106: "only works if the tabs are at the start of the string", 147: "not a drop-in replacement", 151: "not a drop-in replacement",
-    179: "returns an iterator", 189: "will fail",
+    179: "returns an iterator", 189: "will fail", 166: "there is no way for Refurb to detect whether the prefixes",
 }
 
 
@@ -310,6 +310,96 @@ def observe(fn, args: dict, rule: Rule, scratch: Path | None):
 
 
 
+
+# ------------------------------------------------------------------ neighbourhood of each idiom
+_CMP = {ast.Lt: [ast.Gt, ast.LtE], ast.Gt: [ast.Lt, ast.GtE], ast.LtE: [ast.GtE, ast.Lt], ast.GtE: [ast.LtE, ast.Gt], ast.Eq: [ast.NotEq], ast.NotEq: [ast.Eq],
+        ast.Is: [ast.IsNot], ast.IsNot: [ast.Is], ast.In: [ast.NotIn], ast.NotIn: [ast.In]}
+_INTS = {0: [1, -1], 1: [0, 2], 2: [10, 16, 8, 3], 10: [2, 16], 16: [2, 10], 8: [2], 3: [2], 4: [3, 5]}
+
+
+def _alts(n: ast.AST) -> list[ast.AST]:
+    """Single-site edits of an idiom: the shapes next to the documented one, which a check's guard
+    either rejects (nothing to verify) or accepts (then its advice must hold for them too)."""
+    c = copy.deepcopy
+    out: list[ast.AST] = []
+    if isinstance(n, ast.Constant):
+        if isinstance(n.value, bool):
+            out.append(ast.Constant(value=not n.value))
+        elif isinstance(n.value, int):
+            out += [ast.Constant(value=v) if v >= 0 else ast.UnaryOp(op=ast.USub(), operand=ast.Constant(value=-v)) for v in _INTS.get(n.value, [])]
+    elif isinstance(n, ast.Compare):
+        for i, op in enumerate(n.ops):
+            for alt in _CMP.get(type(op), []):
+                m = c(n)
+                m.ops[i] = alt()
+                out.append(m)
+        if len(n.ops) == 1:
+            m = c(n)
+            m.left, m.comparators[0] = m.comparators[0], m.left
+            out.append(m)
+    elif isinstance(n, ast.BoolOp):
+        m = c(n)
+        m.op = ast.Or() if isinstance(n.op, ast.And) else ast.And()
+        out.append(m)
+        if len(n.values) == 2:
+            m = c(n)
+            m.values.reverse()
+            out.append(m)
+    elif isinstance(n, ast.IfExp):
+        m = c(n)
+        m.body, m.orelse = m.orelse, m.body
+        out.append(m)
+    elif isinstance(n, ast.UnaryOp) and isinstance(n.op, (ast.USub, ast.Not)):
+        out.append(c(n.operand))
+    elif isinstance(n, ast.Call) and len(n.args) == 2 and not n.keywords:
+        m = c(n)
+        m.args.reverse()
+        out.append(m)
+    elif isinstance(n, ast.keyword) and n.arg is not None and not isinstance(n.value, ast.Constant):
+        pass
+    return out
+
+
+class _Edit(ast.NodeTransformer):
+    def __init__(self, target=-1, alt=0):
+        self.i, self.target, self.alt, self.counts = -1, target, alt, []
+
+    def visit(self, node):
+        self.i += 1
+        k = _alts(node) if isinstance(node, ast.expr) else []
+        self.counts.append(len(k))
+        if self.i == self.target:
+            return ast.copy_location(k[self.alt], node)
+        return self.generic_visit(node)
+
+
+def variants(rule: Rule) -> list[Rule]:
+    if rule.rhs is not None:
+        return []                           # the message quotes a fragment only: no way to read the replacement of a different shape off it
+    src = textwrap.dedent(rule.lhs)
+    try:
+        tree = ast.parse(src)
+    except SyntaxError:
+        return []
+    cnt = _Edit()
+    cnt.visit(copy.deepcopy(tree))
+    out, seen = [], {norm(src)}
+    for site, k in enumerate(cnt.counts):
+        for alt in range(k):
+            t2 = ast.fix_missing_locations(_Edit(site, alt).visit(copy.deepcopy(tree)))
+            try:
+                txt = ast.unparse(t2)
+                compile(txt, "v", "exec")
+            except Exception:  # noqa: BLE001
+                continue
+            key = norm(txt)
+            if key is None or key in seen:
+                continue
+            seen.add(key)
+            out.append(Rule(rule.code, txt, rule.params, mode=rule.mode, setup=rule.setup, annot=rule.annot, cls=rule.cls, fs=rule.fs, note=f"variant of `{rule.lhs}`"))
+    return out
+
+
 # ------------------------------------------------------------------ model tie (Lib/PyEval.v, Lib/PyRules.v)
 # (code, original) -> (model original, model replacement, the replacement refurb must print for the
 # model replacement to be the right one, result kind).  Operand order = order of the rule's params.
@@ -512,12 +602,16 @@ def run(ctx: Ctx) -> None:
     from refurb.main import run_refurb
     from refurb.settings import Settings
     rng = ctx.rng
+    base_n = len(RULES)
+    ALL = list(RULES)
+    for r in RULES:
+        ALL += variants(r)
     td = Path(tempfile.mkdtemp(prefix="c01-"))
     try:
         # ---- one lint run over all rule instances
         lines = ["from typing import Any", "import os, io, re, math, hashlib, shlex, string", "from pathlib import Path"]
         spans = {}
-        for i, r in enumerate(RULES):
+        for i, r in enumerate(ALL):
             prog = (r.setup or "") + lint_program(r, i)
             start = sum(x.count("\n") + 1 for x in lines) + 1
             lines.append(prog.rstrip("\n"))
@@ -532,7 +626,7 @@ def run(ctx: Ctx) -> None:
         by_rule: dict[int, list] = {}
         for e in out:
             for i, (a, z) in spans.items():
-                if a <= e.line <= z and e.code == RULES[i].code:
+                if a <= e.line <= z and e.code == ALL[i].code:
                     by_rule.setdefault(i, []).append(e)
         docs = {}
         from refurb.loader import get_error_class, get_modules
@@ -540,18 +634,27 @@ def run(ctx: Ctx) -> None:
             ec = get_error_class(m)
             if ec:
                 docs[ec.code] = ec.__doc__ or ""
-        unmatched, underivable, stale = [], [], []
+        unmatched, underivable, stale, variant_underivable = [], [], [], []
         derived: dict = {}
         scratch = td / "scratch"
-        for i, r in enumerate(RULES):
+        for i, r in enumerate(ALL):
             es = by_rule.get(i)
+            is_variant = i >= base_n
             if not es:
-                unmatched.append(f"FURB{r.code}: {r.lhs!r}")
+                if is_variant:
+                    ctx.count("variant-not-flagged")          # the check's guard rejects the neighbouring shape: nothing is advised
+                else:
+                    unmatched.append(f"FURB{r.code}: {r.lhs!r}")
                 continue
             msg = es[0].msg
             rhs, how = derive_rhs(r, msg)
+            if is_variant:
+                ctx.count("variant-flagged")
             if rhs is None:
-                underivable.append(f"FURB{r.code}: {r.lhs!r}: {how}")
+                if is_variant:
+                    variant_underivable.append(f"FURB{r.code}: {r.lhs!r}: {msg}")
+                else:
+                    underivable.append(f"FURB{r.code}: {r.lhs!r}: {how}")
                 continue
             if rhs.startswith("<<invalid>>"):
                 ctx.report(f"invalid-python:FURB{r.code}", f"FURB{r.code}: the proposed replacement `{rhs[11:]}` for `{r.lhs}` is not valid Python",
@@ -622,6 +725,8 @@ def run(ctx: Ctx) -> None:
                                {"rule": r.code, "original": r.lhs, "replacement": rhs, "message": msg, "replacement_from": how, "environment": {k: repr(v) for k, v in args.items()},
                                 "cause_class": cause, "original_outcome": {k: repr(v) for k, v in a.items()}, "replacement_outcome": {k: repr(v) for k, v in c.items()}})
         ctx.extra["rule_instances"] = len(RULES)
+        ctx.extra["neighbouring_shapes_generated"] = len(ALL) - base_n
+        ctx.extra["flagged_variants_with_underivable_replacement"] = variant_underivable
         ctx.extra["checks_covered"] = len({r.code for i, r in enumerate(RULES) if i in by_rule})
         ctx.extra["instances_not_flagged_by_refurb"] = unmatched
         ctx.extra["instances_with_underivable_replacement"] = underivable
